@@ -251,6 +251,8 @@ def run_cell(cell, seed):
             out.append(judge(cell, 'randn under torch.no_grad()', x, ok, y, L))
             ok, y = util.call_lib_eval(mod, x)
             out.append(judge(cell, 'randn, module in eval() mode', x, ok, y, L))
+            ok, y = util.call_lib(mod, util.channel_sliced(x))
+            out.append(judge(cell, 'randn as a channel-sliced (non-contiguous) view', x, ok, y, L))
     if not cell.get('noimp') and core.rng_for(seed, PROP, 'reload', str(cell)).random() < 0.34:
         out.extend(reload_history(cell, seed))
     # generalisation certificate for this cell
